@@ -70,10 +70,13 @@ def unit_family(rng, ns, nd, ttol, stol, small_dev=True):
         o = G.place(rng, rng.choice(G.PLACEMENTS), ns[j], nd[j])
         offs.append(Fr(o + (nd[j] if s < 0 else 0)))
     tt = Fr(ttol)
-    eps = lambda: rng.choice([Fr(0), Fr(0), Fr(1, 64), Fr(-1, 64), tt / 2, -tt / 2, tt - Fr(1, 2 ** 20), -tt + Fr(1, 2 ** 20),
-                              tt, -tt, tt + Fr(1, 2 ** 20), -tt - Fr(1, 2 ** 20), Fr(3, 8), Fr(-3, 8)])
     st = Fr(stol)
-    dl = rng.choice([Fr(0), Fr(0), Fr(0), st / 2, -st / 2, st - Fr(1, 2 ** 24), st, -st, st + Fr(1, 2 ** 24)]) if small_dev else Fr(0)
+    e_in = [Fr(0), Fr(0), Fr(1, 128), Fr(-1, 128), tt / 2, -tt / 2, tt - Fr(1, 2 ** 20), -tt + Fr(1, 2 ** 20)]
+    e_out = [tt, -tt, tt + Fr(1, 2 ** 20), -tt - Fr(1, 2 ** 20), Fr(3, 8), Fr(-3, 8)]
+    d_in = [Fr(0), Fr(0), Fr(0), st / 2, -st / 2, st - Fr(1, 2 ** 24), -st + Fr(1, 2 ** 24)]
+    d_out = [st, -st, st + Fr(1, 2 ** 24), -st - Fr(1, 2 ** 24)]
+    eps = lambda: rng.choice(e_in if rng.random() < 0.8 else e_out)
+    dl = rng.choice(d_in if rng.random() < 0.8 else d_out) if small_dev else Fr(0)
     dl2 = rng.choice([dl, Fr(0), -dl])
     return [sx * (1 + dl), Fr(0), offs[0] + eps(), Fr(0), sy * (1 + dl2), offs[1] + eps()]
 
@@ -157,7 +160,7 @@ def gen_cases(out, tier, rng):
         out.count("warp-family:" + fam)
 
     # (3) end to end: the model plans and pastes, the real warp is the reference
-    n3 = 250 if tier == "quick" else 2500
+    n3 = 500 if tier == "quick" else 5000
     for i in range(n3):
         dtype = DTYPES[i % len(DTYPES)]
         ns = (rng.randint(1, 12), rng.randint(1, 12))
@@ -202,7 +205,7 @@ def p_paste_warp(src_shape, dst_shape, A, kw, dtype, seed):
     k = r.read_shrink
     why = f"roi_src={r.roi_src} roi_dst={r.roi_dst} paste_ok={r.paste_ok} read_shrink={k}"
     if not r.paste_ok:
-        return True, why + " (no paste planned)"
+        return True, "no paste planned"
     stol, ttol = Fr(kw.get("stol", 1e-3)), Fr(kw.get("ttol", 0.05))
     # decision rule: only for scale + translation, integer scale, whole-pixel shift, within the tolerances
     # binary64 noise of the implementation's own inverse affine and of the division by a read scale
@@ -274,13 +277,16 @@ def search(out, tier):
             ok, detail = False, f"raised {type(e).__name__}: {e}"
         out.count("predicate:" + name)
         out.case(("pred", name, repr(args)), True)
+        if name == "paste_warp":
+            out.count("search:no-paste" if detail == "no paste planned" else
+                      ("search:paste-shrink-1" if "read_shrink=1" in detail else "search:paste-shrink-k"))
         if not ok and name not in found:
             found[name] = True
             out.violation(f"c10:{name}", f"{name}{args}: {detail}", {"predicate": name, "args": list(args), "observed": detail})
 
     for rp in core.corpus(ID):
         run(rp["predicate"], *rp["args"])
-    n = 500 if tier == "quick" else 6000
+    n = 800 if tier == "quick" else 8000
     for i in range(n):
         dtype = DTYPES[i % len(DTYPES)]
         ns = (rng.randint(1, 12), rng.randint(1, 12))
@@ -348,8 +354,28 @@ def replay(rp) -> int:
 
 
 META = {
-    "text": "placeholder",
-    "note": "placeholder",
+    "text": ("Coq theorems (coq/Props/C10.v, 9 statements, all closed under the global context): for every value type, every "
+             "source image and every same-CRS plan with paste_ok and read_shrink = 1, the pasted image (fill with nodata, copy "
+             "roi_src into roi_dst, reversed along mirrored axes) equals the nearest-neighbour warp image at EVERY destination "
+             "pixel, for any true pixel mapping within half a pixel of the snapped transform - in particular for the true affine "
+             "when its scale is exactly +-1 and its sub-pixel residue is accepted by ttol <= 1/2; the per-axis identity "
+             "floor(+-(d+1/2)+T+eps) = +-d+T(-1); for read_shrink = k the source region is k times the destination region "
+             "(sizes, multiples of k, block structure incl. mirroring); _can_paste = True implies no rotation/shear beyond 1e-10, "
+             "near-integer scale, both axis scales within stol (relative) of the read scale, sub-pixel shift below ttol, AND that "
+             "snap_affine then yields exactly (+-1, whole-pixel shift) - the tolerance tests agree with the snap; never for "
+             "rotation/shear.  The nearest-neighbour warp contract and the paste operation are validated against rasterio/GDAL "
+             "and numpy for 8 dtypes (int8/bool detours) with exact pixel comparison; the planned paste is compared with the real "
+             "warp end to end."),
+    "note": ("Trusted: Coq kernel; hand-written models coq/Model/Overlap.v, coq/Model/Paste.v; exact-rational abstraction of "
+             "binary64.  Oracle contract (validated by testing on every run, not proved): GDAL's nearest-neighbour warp assigns "
+             "dst[d] = src[floor(A(d+1/2))] when inside, else nodata, for every dtype through odc.geo.warp.rio_reproject; cases in "
+             "which a pixel centre maps within 1e-6 of a source pixel edge are excluded (GDAL biases exact ties by 1e-10; the "
+             "theorem's hypothesis |eps| < 1/2 excludes ties too).  numpy semantics of reversed-slice assignment is validated by "
+             "the CPaste cases.  Domain restriction in the theorem: the true mapping must stay within half a pixel of the snapped "
+             "one (a tolerated scale deviation stol accumulates to more than half a pixel on images larger than about 1/(2 stol) "
+             "pixels - that is how the tolerance is defined, the statement makes it explicit).  Irrational scales under the 1e-10 "
+             "shear tolerance are outside the executable model.  The model follows the code after the repair of the '> stol' test "
+             "(witness in corpus/C10)."),
     "technique": "Coq proof over hand-written Gallina model + exact differential correspondence (vm_compute) against numpy/rasterio + exact pixel comparison search",
     "design_ref": "DESIGN.md section 5, C10",
 }
